@@ -33,6 +33,8 @@ import (
 
 	"verif/h/fw"
 	"verif/h/node"
+
+	"com.tuntun.rangers/node/src/middleware/types"
 )
 
 const splitLevel = 4 // levels below are explored by every worker, the frontier at this level is partitioned
@@ -46,6 +48,7 @@ type bfsNode struct {
 	key     string
 	mask    uint32 // clauses failing in this state
 	listLen int
+	odd     bool // the one ID-dimension addition of the history was already accepted
 }
 
 func names(h []byte) []string {
@@ -79,14 +82,9 @@ func infra(format string, a ...interface{}) {
 	os.Exit(3)
 }
 
-func enabledFor(listLen int, op string) bool {
-	switch op {
-	case opRm:
-		return listLen >= 2
-	case opRm2:
-		return listLen >= 3
-	}
-	return true
+func enabledFor(n *bfsNode, op string) bool {
+	m := refGroups{list: make([]*types.Group, n.listLen), oddUsed: n.odd}
+	return m.enabled(op)
 }
 
 // current history, for the watchdog message
@@ -127,6 +125,9 @@ func search(c *fw.Ctx) {
 	if root.ResetErr != nil {
 		infra("%v", root.ResetErr)
 	}
+	if len(root.Fails) == 0 && layoutErr != nil {
+		infra("%v", layoutErr)
+	}
 	if designated {
 		c.Trace(1)
 		c.Eval(1)
@@ -145,7 +146,7 @@ func search(c *fw.Ctx) {
 	nodes:
 		for _, n := range level {
 			for oi, op := range alphabet {
-				if !enabledFor(n.listLen, op) {
+				if !enabledFor(&n, op) {
 					continue
 				}
 				if c.Expired() {
@@ -218,7 +219,7 @@ func search(c *fw.Ctx) {
 					c.State(1)
 					c.Sample(map[string]interface{}{"history": hist, "list": r.ListLen, "failing_clauses": maskNames(failMask(r.Fails))})
 				}
-				next = append(next, bfsNode{hist: hb, key: r.Key, mask: failMask(r.Fails), listLen: r.ListLen})
+				next = append(next, bfsNode{hist: hb, key: r.Key, mask: failMask(r.Fails), listLen: r.ListLen, odd: r.OddUsed})
 			}
 		}
 		if L+1 == splitLevel {
@@ -295,14 +296,16 @@ func main() {
 	}
 	fw.Main(fw.Check{
 		ID: "C19", Level: "model_checking",
-		Rule: "BFS over histories of {add alt0, add alt1, add wrong-PreGroup, add missing-parent, add duplicate-id, remove-last, fork-switch-remove-2, restart} on the real group chain, " +
+		Rule: "BFS over histories of {add alt0, add alt1, add wrong-PreGroup, add missing-parent, add duplicate-id, remove-last, fork-switch-remove-2, restart} " +
+			"plus at most one accepted addition per history from the ID dimension {Id = height key of height 0 / last / next / next+1, Id = last-pointer key, Id = count key, Id = genesis id, empty Id, 1-byte Id; otherwise valid} on the real group chain, " +
 			"depth 6 (quick) / 10 (thorough); each transition = fresh instance + replay + one op, merged on the canonical dump of store+side index+memory; " +
 			"a case is a (distinct implementation state, enabled op) pair; non-trivial = source state is not the post-boot state (at least one earlier op)",
 		Assumptions: []string{
 			"accept-all consensus stub: CheckGroup passes for every group",
 			"restart = re-running initGroupChain over the same open LevelDB instance (VerifGroupReinit); crash points are a separate part",
 			"fresh instance = group store prefix, groupIndex table and the chain object's two fields (count, last group) restored to the post-boot image inside the worker process; byte-identity of the whole image is verified before every history and every prefix replay must reproduce the stored state key",
-			"model takes the accept/reject decision of valid and missing-parent additions from the implementation; accepted wrong-PreGroup / duplicate-id additions are violations",
+			"model takes the accept/reject decision of valid, missing-parent and ID-dimension additions from the implementation (whatever is accepted becomes a list element and must satisfy every clause, also after restart); accepted wrong-PreGroup / duplicate-id additions are violations",
+			"ID dimension: the store layout (last-pointer key, count key, 8-byte big-endian height keys) is stated in the check and verified against the real post-boot store; at most one accepted ID-dimension addition per history",
 			"remove-last is applied only while a non-genesis group is listed (the fork switch never removes the genesis group)",
 			"sqlite side index: only 'operations succeed' and its row set as part of the state key",
 		},
